@@ -463,20 +463,36 @@ func checkInference(c *wk.Case, f *sfnt.Font, eff []string, cnt map[string]int, 
 			continue // has a name, or lost it as a duplicate (which copy keeps it is not specified)
 		}
 		switch rr := runes[g]; {
-		case len(rr) == 1:
-			want := names.FromUnicode(string(rr[0]))
-			if want == "" || cnt[want] > 0 || cand[want] != 1 {
+		case len(rr) >= 1:
+			// the glyph-list names its characters offer; "free" ones are
+			// names nobody has and no other glyph could claim
+			if len(targets[g]) > 0 {
+				continue // also reachable through a substitution rule (which source wins is not specified)
+			}
+			offered := map[string]bool{}
+			free := 0
+			for _, r := range rr {
+				nm := names.FromUnicode(string(r))
+				if nm == "" {
+					continue
+				}
+				// (a name of the shape that substitution rules derive does
+				// not count as free: a rule might claim it)
+				if !offered[nm] && cnt[nm] == 0 && cand[nm] == 1 && !strings.ContainsAny(nm, "._") {
+					free++
+				}
+				offered[nm] = true
+			}
+			if free == 0 {
 				continue
 			}
-			if len(targets[g]) > 0 || strings.ContainsAny(want, "._") {
-				// also reachable through a substitution rule (which source
-				// wins is not specified), or a name of the shape that rules
-				// derive
-				continue
+			if len(rr) == 1 {
+				c.Count("inference_judged_cmap", 1)
+			} else {
+				c.Count("inference_judged_cmap_(several_characters)", 1)
 			}
-			c.Count("inference_judged_cmap", 1)
-			if got[g] != want {
-				c.Fail("names-inference", "MakeGlyphNames/cmap", "glyph %d has no name and is the image of %U only, whose glyph-list name %q nobody else has: MakeGlyphNames returns %q", g, rr[0], want, got[g])
+			if !offered[got[g]] {
+				c.Fail("names-inference", "MakeGlyphNames/cmap", "glyph %d has no name and is the image of %U; at least one of the glyph-list names these characters offer is free, but MakeGlyphNames returns %q", g, rr, got[g])
 			}
 		case len(rr) == 0 && len(targets[g]) == 1:
 			r := targets[g][0]
